@@ -3,6 +3,8 @@ package c14
 import (
 	"encoding/json"
 	"fmt"
+	"github.com/GuanceCloud/platypus/pkg/ast"
+	"github.com/GuanceCloud/platypus/pkg/errchain"
 	plrt "github.com/GuanceCloud/platypus/pkg/engine/runtime"
 	"github.com/GuanceCloud/platypus/pkg/engine/runtimev2"
 	"os"
@@ -615,6 +617,80 @@ func TestPollFromHostFunction(t *testing.T) {
 		evid.Case(fmt.Sprintf("hostpoll/%d", si), true, "poll-from-host-function")
 	}
 	evid.Exhaustive("statement with a polling host function x poll index 1..80", n)
+}
+
+// TestPollFromHostBuiltinV1: the same for the v1 interpreter: a host builtin that waits - it asks the task up to 5000
+// times whether the run has been told to stop - is told so by the question at which the host's signal first says so
+// (poll k <= 80), wherever the call sits (top level, loop, branch, used script); the run then returns without an error
+// and nothing of a later statement runs.
+func TestPollFromHostBuiltinV1(t *testing.T) {
+	v1call, v1check := sem.V1Tables()
+	call, check := map[string]plrt.FuncCall{}, map[string]plrt.FuncCheck{}
+	for k, v := range v1call {
+		call[k] = v
+	}
+	for k, v := range v1check {
+		check[k] = v
+	}
+	type waitRec struct {
+		asked   int
+		stopped bool
+	}
+	var waits []waitRec
+	call["pwait"] = func(ctx *plrt.Task, e *ast.CallExpr) *errchain.PlError {
+		w := waitRec{}
+		for w.asked < 5000 && !w.stopped {
+			w.asked++
+			w.stopped = ctx.ProcExit()
+		}
+		waits = append(waits, w)
+		return nil
+	}
+	check["pwait"] = func(ctx *plrt.Task, e *ast.CallExpr) *errchain.PlError { return nil }
+	sets := []map[string]string{
+		{"main.p": "probe(\"s0\")\npwait()\nprobe(\"s1\")\nprobe(\"s2\")"},
+		{"main.p": "probe(\"s0\")\nfor r = 0; r < 3; r = r + 1 {\n  probe(\"s1\", r)\n  pwait()\n  probe(\"s2\", r)\n}\nprobe(\"s3\")"},
+		{"main.p": "probe(\"s0\")\nif true {\n  for e in [1, 2] {\n    pwait()\n    probe(\"s1\", e)\n  }\n}\nprobe(\"s2\")"},
+		{"main.p": "probe(\"s0\")\nuse(\"lib.p\")\nprobe(\"s2\")", "lib.p": "probe(\"s1\")\npwait()\nprobe(\"s1\", 2)"},
+		{"main.p": "probe(\"s0\")\nx = [pval(1), pwait(), pval(2)]\nprobe(\"s1\")"},
+	}
+	n := 0
+	for si, set := range sets {
+		ok, errs, crash := impl.LoadV1(set, call, check)
+		if crash != nil || len(errs) > 0 {
+			t.Fatalf("harness: set %d does not load: %v %v", si, errs, crash)
+		}
+		for k := 1; k <= 80; k++ {
+			waits = nil
+			sig := &probe.Sig{FireAt: k}
+			pt := impl.NewPoint("m", map[string]string{"t": "v"}, map[string]any{"message": "m"})
+			rerr, crash := impl.RunV1(ok["main.p"], pt, sig)
+			rp := replay{(&sem.Case{Texts: set, Root: "main.p"}).Replay("a host builtin waits, asking the task whether the run was told to stop"), k}
+			if crash != nil {
+				rk.Fail(t, "host-wait-v1", rp, "v1: run crashed: %s", crash.Value)
+			}
+			if rerr != nil {
+				rk.Fail(t, "host-wait-v1", rp, "v1: a run cancelled at poll %d returned an error instead of nothing: %v", k, rerr)
+			}
+			for _, w := range waits {
+				if !w.stopped {
+					rk.Fail(t, "host-wait-v1", rp, "v1: the waiting builtin asked ctx.ProcExit() %d times and was never told to stop, although the host's signal says stop from its poll %d on (it was polled %d times in the whole run)\nscripts: %v", w.asked, k, sig.Polls, set)
+				}
+			}
+			seenFired := false
+			for _, r := range sig.Trace {
+				if seenFired && (r.Label == "s1" || r.Label == "s2" || r.Label == "s3") {
+					rk.Fail(t, "host-wait-v1", rp, "v1: statement %s ran after the signal had been observed (poll %d)\ntrace: %v", r.Label, k, sig.Trace)
+				}
+				if r.Fired {
+					seenFired = true
+				}
+			}
+			n++
+		}
+		evid.Case(fmt.Sprintf("hostwait-v1/%d", si), true, "poll-from-host-builtin-v1")
+	}
+	evid.Exhaustive("place of a waiting host builtin x poll index 1..80 (v1)", n)
 }
 
 func TestNilReceiverSignal(t *testing.T) {
